@@ -50,6 +50,9 @@ var kinds = []kind{
 	{"Counter", func(l *mon.Log) it { return gens.Counter(l, 4) }},
 	{"Fib", func(l *mon.Log) it { return gens.Fib(l) }},
 	{"RangeString", func(l *mon.Log) it { return gens.RangeString(l, "aé€z") }},
+	{"RangeStringB", func(l *mon.Log) it { return gens.RangeString(l, "żółw świat") }},
+	{"RangeStringC", func(l *mon.Log) it { return gens.RangeString(l, "日本語テキスト") }},
+	{"RangeStringD", func(l *mon.Log) it { return gens.RangeString(l, "héllo wörld, ünïcödé") }},
 	{"RangeSliceMap", func(l *mon.Log) it { return gens.RangeSliceMap(l, []int{1, 2, 3, 4}) }},
 	{"Walk", func(l *mon.Log) it { return gens.Walk(l, mon.MkTree(0, 7)) }},
 	{"Closure", func(l *mon.Log) it { return gens.Closure(l) }},
@@ -175,6 +178,36 @@ func deterministic(rng *rand.Rand) {
 		n4++
 	}
 	res.Count("schedules_k4_random", n4)
+	// history: many panics at nesting depth 100, each recovered by the consumer, must not affect later iterators
+	recovered := 0
+	for i := 0; i < 300; i++ {
+		func() {
+			defer func() {
+				if recover() != nil {
+					recovered++
+				}
+			}()
+			l := &mon.Log{}
+			g := gens.PanicAt(l, 100)
+			g.MoveNext()
+			g.MoveNext()
+		}()
+	}
+	res.Count("recovered_panics_at_depth_100", recovered)
+	for _, k := range kinds {
+		func() {
+			defer func() {
+				if p := recover(); p != nil {
+					res.Violate("after-panics:"+k.name, "panic-history-affects-other-iterators", fmt.Sprintf("after %d recovered panics in OTHER iterators, a fresh %s iterator panicked: %v", recovered, k.name, p), nil)
+				}
+			}()
+			again := solo(k, maxM)
+			res.Eval(1)
+			if strings.Join(again, "|") != strings.Join(solos[k.name], "|") {
+				res.Violate("after-panics:"+k.name, "panic-history-affects-other-iterators", fmt.Sprintf("after %d recovered panics in other iterators %s yields %v instead of %v", recovered, k.name, again, solos[k.name]), nil)
+			}
+		}()
+	}
 	res.DistinctN(n + n3 + n4)
 	res.Sample(map[string]any{"kind": "Walk", "solo_record": solos["Walk"]})
 }
@@ -261,6 +294,46 @@ func parallel(rng *rand.Rand, G, rounds int) {
 			fmt.Fprintf(&sb, "%d,", s.g)
 		}
 		sigs[sb.String()] = true
+	}
+	// deep recursive delegation on many goroutines AT THE SAME TIME (each chain is legal alone)
+	{
+		const depth = 2500
+		soloDeep := func() []int {
+			var out []int
+			g := gens.Chain(&mon.Log{}, depth)
+			for g.MoveNext() {
+				out = append(out, g.Current())
+			}
+			return out
+		}
+		want := fmt.Sprint(soloDeep())
+		var wg sync.WaitGroup
+		bad := make([]string, G)
+		start := make(chan struct{})
+		for g := 0; g < G; g++ {
+			wg.Add(1)
+			go func(g int) {
+				defer wg.Done()
+				defer func() {
+					if p := recover(); p != nil {
+						bad[g] = fmt.Sprintf("goroutine %d panicked while draining its own depth-%d chain: %v", g, depth, p)
+					}
+				}()
+				<-start
+				if got := fmt.Sprint(soloDeep()); got != want {
+					bad[g] = fmt.Sprintf("goroutine %d: depth-%d chain differs from solo run", g, depth)
+				}
+			}(g)
+		}
+		close(start)
+		wg.Wait()
+		res.Eval(G)
+		res.Count("deep_chains_in_parallel", G)
+		for g, b := range bad {
+			if b != "" {
+				res.Violate(fmt.Sprintf("parallel-deep:g%d", g), "parallel-deep-chains", b, nil)
+			}
+		}
 	}
 	// hand-over: ONE iterator advanced alternately by two goroutines (properly synchronised through
 	// unbuffered channels): its record must equal the solo record and the race detector must stay silent
